@@ -179,6 +179,7 @@ theorem admits_of_ok : ∀ (τ : Ty) (j : PV) (p : Path) (v : PV), parseValue τ
     cases j <;> simp [parseValue, mismatch] at h; subst h; exact .str _
   | .bool, j, p, v, h => by
     cases j <;> simp [parseValue, mismatch] at h; subst h; exact .bool _
+  | .never, j, p, v, h => by simp [parseValue, mismatch] at h
   | .listAny, j, p, v, h => by
     cases j <;> simp [parseValue, mismatch] at h; subst h; exact .listAny _
   | .tupleAny, j, p, v, h => by
@@ -306,6 +307,7 @@ theorem ok_of_admits : ∀ (τ : Ty) (j v : PV), Admits τ j v → ∀ p, parseV
     | _ => simp [parseValue]
   | .str, j, v, h, p => by cases h; simp [parseValue]
   | .bool, j, v, h, p => by cases h; simp [parseValue]
+  | .never, j, v, h, p => by cases h
   | .listAny, j, v, h, p => by cases h; simp [parseValue]
   | .tupleAny, j, v, h, p => by cases h <;> simp [parseValue]
   | .dictAny, j, v, h, p => by cases h; simp [parseValue]
